@@ -1,7 +1,37 @@
-//! PivotReversalStrategy — reference model (TODO).
+//! PivotReversalStrategy. Doc: "Simply searches for pivot points and returns signal."
+//! No values. 1 signal: "When low pivot happens, returns full buy signal. When high pivot happens,
+//! returns full sell signal. Otherwise returns no signal."
+//! Config: `left` = how many periods should be left before the pivot point, `right` = how many
+//! periods should appear after the pivot point. A pivot is therefore known `right` candles after it
+//! happened (crate's `ReversalSignal(left, right)` semantics): the low (high) of the candle `right`
+//! steps ago is a lower (upper) pivot of the series of lows (highs).
 use super::*;
 
-/// returns None until the reference is written
-pub fn make(_cfg: &Cfg, _c0: &RC) -> Option<Box<dyn IndRef>> {
-	None
+#[derive(Clone)]
+pub struct PivotReversalStrategy {
+	/// upper pivots of the highs
+	hi: rm::Reversal,
+	/// lower pivots of the lows
+	lo: rm::Reversal,
+}
+
+impl IndRef for PivotReversalStrategy {
+	fn values(&mut self, c: &RC) -> Vec<Q> {
+		self.hi.push(c.h);
+		self.lo.push(c.l);
+		vec![]
+	}
+	fn signals(&mut self, _c: &RC, _own: &[f64]) -> Vec<Sig> {
+		let low_pivot = self.lo.lower();
+		let high_pivot = self.hi.upper();
+		// † follows the implementation: a low pivot and a high pivot confirmed on the same candle cancel
+		// each other (the documentation does not rank them)
+		vec![sig_sign(low_pivot as i32 - high_pivot as i32)]
+	}
+	indref!(PivotReversalStrategy);
+}
+
+pub fn make(cfg: &Cfg, c0: &RC) -> Option<Box<dyn IndRef>> {
+	let (left, right) = (cfg.int("left"), cfg.int("right"));
+	Some(Box::new(PivotReversalStrategy { hi: rm::Reversal::new(left, right, c0.h), lo: rm::Reversal::new(left, right, c0.l) }))
 }
